@@ -87,7 +87,33 @@ def run(case: dict, lean: Lean) -> Outcome:
         if len({c.calls[0][0] for c in cs}) != len(cs): failed.append("components received the same derived seed")
         if [c.calls for c in cs] != [c.calls for c in cs2]: failed.append("pipeline training with one seed is not repeatable")
         if any(c.calls[0][1] != d.interaction_count for c in cs): failed.append("a component was trained on other data")
-        return Outcome(not failed, not failed, ("pipeline training",), {"failed": failed}, None)
+        # further `Pipeline.train` calls with either setting of `retrain`, any kind of seed and other data: every component's state must
+        # come from the call the pipeline-training model says (skip = untouched, retrain = the new data and the seed spawned for it)
+        import numpy as _np
+        more = [(rnd.choice([True, False, False]), rnd.choice(["none", "int", "int0", "seq", "gen"])) for _ in range(rnd.randint(1, 3))]
+        dsets = [d] + [_data(rnd, 100 + 3 * j, 5 + j, 1000 + j, 6) for j in range(1, len(more) + 1)]
+        msteps = [[0, True, True]]; seeds_used = [seed]
+        for j, (rt, sk) in enumerate(more, start=1):
+            sv = {"none": None, "int": rnd.randrange(1, 10**6), "int0": 0, "seq": _np.random.SeedSequence(rnd.randrange(10**6)), "gen": _np.random.default_rng(rnd.randrange(10**6))}[sk]
+            seeds_used.append(sv.entropy if sk == "seq" else sv)
+            p.train(dsets[j], TrainingOptions(rng=sv, retrain=rt))
+            msteps.append([j, rt, sk in ("int", "int0", "seq")])
+        classes_p = ["pipeline training", "repeated pipeline training"] + sorted({("retrain" if rt else "skip") + " with seed kind " + sk for rt, sk in more})
+        mstates = lean.call("c18.pipe", {"nodes": [[k, t] for k, t in enumerate(kinds)], "steps": msteps})[-1]
+        ti = 0
+        for k, t in enumerate(kinds):
+            if not t: continue
+            c = cs[ti]; ti += 1; origin = mstates[k]
+            dj, key_ = origin
+            last = c.calls[-1]
+            if last[1] != dsets[dj].interaction_count and len({x.interaction_count for x in dsets}) == len(dsets):
+                failed.append(f"component c{k}: state comes from a training on {last[1]} interactions, the model says dataset #{dj} ({dsets[dj].interaction_count})")
+            if key_ is not None:
+                wantd = int(_np.random.default_rng(_np.random.SeedSequence(seeds_used[dj], spawn_key=tuple(key_))).integers(1 << 30))
+                if last[0] != wantd: failed.append(f"component c{k}: state was learned with another seed than the one derived for it in training call #{dj}")
+            if len(c.seen) != len(msteps): failed.append(f"component c{k} saw {len(c.seen)} training calls, the pipeline was trained {len(msteps)} times")
+            elif [r for r, _ in c.seen[1:]] != [rt for rt, _ in more]: failed.append(f"component c{k}: the retrain flag did not reach the component as given: {[r for r, _ in c.seen[1:]]} vs {[rt for rt, _ in more]}")
+        return Outcome(not failed, not failed, tuple(classes_p), {"failed": failed}, None)
     d = [_data(rnd, 100, 10, 1000, 9), _data(rnd, 105, 8, 1004, 11), _data(rnd, 90, 7, 990, 8)]
     a = _make(case["comp"]); cur = 0; a.train(d[0], TrainingOptions(rng=5)); state = snap(a)
     # the guard model: which dataset the component's state must come from after every step
@@ -134,6 +160,6 @@ def run(case: dict, lean: Lean) -> Outcome:
     return Outcome(not failed, not failed, tuple(sorted(classes)), {"failed": failed[:6]}, tuple(sorted(keys)) if keys else None)
 
 SPEC = CheckSpec(
-    pid="C18", theorems=[f"LK.Train.C18_Train_{n}" for n in ["skip_is_identity", "retrain_eq_fresh", "trained_once", "seeds_distinct"]], correspondence_ops=["c18.train_all", "c18.guard"],
-    nontrivial_rule="distinct (component, training sequence) reaching ≥1 of: each trainable component, skip / retrain steps, pipeline training",
+    pid="C18", theorems=[f"LK.Train.C18_Train_{n}" for n in ["skip_is_identity", "retrain_eq_fresh", "trained_once", "seeds_distinct", "pipe_skip_is_identity", "pipe_retrain_eq_fresh"]], correspondence_ops=["c18.train_all", "c18.guard", "c18.pipe"],
+    nontrivial_rule="distinct (component, training sequence) reaching ≥1 of: each trainable component, skip / retrain steps, pipeline training, repeated pipeline training with retrain on / off × seed kinds (none, int, 0, SeedSequence, Generator)",
     budgets={"quick": 14, "thorough": 2600}, gen=gen, run=run, shrink=None)
